@@ -1,12 +1,21 @@
 from excel2pycl.src.context import Context
 from excel2pycl.src.excel import Excel
+from excel2pycl.src.exceptions import E2PyclParserException
 from excel2pycl.src.tokens import IfsControlConstructionToken
 from excel2pycl.src.translators.abstract_translator import AbstractTranslator
-from excel2pycl.src.utilities.helper import get_flatten_list
 
 
 class IfsControlConstructionTokenTranslator(AbstractTranslator):
     @classmethod
     def translate(cls, token: IfsControlConstructionToken, excel: Excel, context: Context) -> str:
-        flatten_list = get_flatten_list(token, excel, context)
-        return context.set_sub_cell(token.in_cell, f'self._ifs({flatten_list})')
+        from excel2pycl.src.translators.expression_token_translator import ExpressionTokenTranslator
+
+        if len(token.expressions) % 2:
+            raise E2PyclParserException('IFS takes pairs of a condition and a value', token.in_cell)
+
+        # the conditions and the values are passed as functions: a value is calculated only when its condition
+        # is the first true one
+        arguments = ','.join(['lambda: ' + ExpressionTokenTranslator.translate(expression, excel, context)
+                              for expression in token.expressions])
+
+        return context.set_sub_cell(token.in_cell, f'self._ifs([{arguments}])')
